@@ -70,20 +70,29 @@ def main(pid, runner, argv):
         # mutation / seed runs against another tree must not overwrite the evidence of the real tree
         os.makedirs(os.path.join(VERIF, ".build", "evidence-other-tree"), exist_ok=True)
         evfile = os.path.join(VERIF, ".build", "evidence-other-tree", pid + ".json")
+    failure = None
     try:
         runner(ctx)
     except TlcFailure as e:
-        print("MODEL-FAILURE property=%s %s" % (pid, str(e)[:4000]), flush=True)
-        return 2
+        failure = "MODEL-FAILURE property=%s %s" % (pid, str(e)[:4000])
     except SystemExit as e:
         if e.code not in (0, None):
-            print("MACHINERY-FAILURE property=%s exit=%s" % (pid, e.code), flush=True)
-            return 2
-        raise
+            failure = "MACHINERY-FAILURE property=%s exit=%s" % (pid, e.code)
+        else:
+            raise
     except Exception:
         traceback.print_exc()
-        print("MACHINERY-FAILURE property=%s" % pid, flush=True)
-        return 2
+        failure = "MACHINERY-FAILURE property=%s" % pid
+    if failure:
+        print(failure, flush=True)
+        known0 = {(f["property"], f["key"]) for f in load_findings() if f.get("status") == "known"}
+        if not any((pid, v["key"]) not in known0 for v in ctx.violations):
+            return 2
+        # violations that the oracle already established before a later part of the run failed stay violations
+        ctx.notes.append("a later part of this run failed (%s); the violations reported were established before it" % failure[:200])
+        if not isinstance(ctx.coverage, dict) or not ctx.coverage:
+            ctx.coverage = {"states": 0, "transitions": 0, "traces_validated_against_impl": 0, "evaluations": 0,
+                            "distinct_nontrivial": 0, "rule": "run aborted after violations were found", "samples": []}
     known = {(f["property"], f["key"]): f for f in load_findings() if f.get("status") == "known"}
     rc = 0
     nviol = 0
